@@ -24,12 +24,12 @@ import (
 func init() {
 	Registry["C10"] = &Prop{
 		Plan: func(tier string) Plan {
-			return Plan{Level: "exploration", NCases: pick(tier, 200, 4000), Batch: 4, CaseTimeout: 60,
+			return Plan{Level: "exploration", NCases: pick(tier, 200, 40000), Batch: 4, CaseTimeout: 60,
 				Rule: "one case = 2000 generated (key, revision) inputs over the alphabet bytes > '$' (empty, 1-byte, 0xff-terminated, all-0xff, prefix-related pairs, pairs differing in the last byte; revisions 0, 1, 2^63, 2^64-1, random) checked for round trip and pairwise order, " +
 					"plus one key set loaded as index+version records into the real memkv engine and 60 raw ranges / prefixes iterated through the computed internal bounds (and through Backend.List for PrefixEnd bounds). " +
 					"non-trivial = case containing >=1 prefix-related pair, >=1 0xff-terminated key and >=1 extreme revision; distinct by input digest",
 				Assumptions: []string{"keys are drawn from the documented alphabet only (every byte greater than '$')"},
-				MinConcl:    pick(tier, 180, 3800)}
+				MinConcl:    pick(tier, 180, 38000)}
 		},
 		Name: func(c *harness.Case) string { return "encode" },
 		Run:  runC10,
